@@ -5,6 +5,7 @@ import Yaep.Model.Recovery
 import Yaep.Model.Api
 import Yaep.Model.Descr
 import Yaep.Model.Earley2
+import Yaep.Model.DefectCodes
 /-!
 # The judge: compares the observations of the real library with the model
 
@@ -95,8 +96,19 @@ def judgeDefRes (prop : String) (cid : String) (o : Op) (res : Except ErrCode Gr
   | .error _ =>
     return ((hs.define res).1, out)
 
-def judgeDef (cid : String) (o : Op) (raw : RawGrammar) (hs : HState) (out : Out) : HState × Out :=
-  judgeDefRes "C10" cid o (readGrammar raw) hs out
+def judgeDef (cid : String) (o : Op) (raw : RawGrammar) (hs : HState) (out : Out) : HState × Out := Id.run do
+  let (hs', out') := judgeDefRes "C10" cid o (readGrammar raw) hs out
+  let mut out := out'
+  -- C10 K: a nonzero code names a defect that is really present (any of them, not necessarily the first)
+  let rc := kvInt ((o.first "def").getD []) "rc"
+  let present := defectCodes raw
+  if rc != 0 && rc != 1 then
+    out := out.v cid o.n "C10" "K" (present.any fun c => Int.ofNat c == rc) s!"code {rc} returned, defects present: {present}"
+  -- the model's own consistency: its first defect is one of the present ones
+  match readGrammar raw with
+  | .error e => if !present.contains e then out := out.s cid s!"MODEL-INCONSISTENT readGrammar code {e} not in {present}"
+  | .ok _ => if !present.isEmpty then out := out.s cid s!"MODEL-INCONSISTENT readGrammar ok but defects {present}"
+  return (hs', out)
 
 /-- `yaep_parse_grammar`: the description text denotes a terminal/rule list (Model/Descr.lean) -/
 def judgeDescr (cid : String) (o : Op) (text : List UInt8) (strict : Bool) (hs : HState) (out : Out) : HState × Out := Id.run do
